@@ -18,6 +18,12 @@ def optsOf (cfg : RatioCfg α) : Opts α :=
   { alternative := cfg.alternative, confidence_level := cfg.confidence_level,
     equal_var := cfg.equal_var, use_t := cfg.use_t }
 
+@[simp] theorem optsOf_alternative (cfg : RatioCfg α) : (optsOf cfg).alternative = cfg.alternative := rfl
+@[simp] theorem optsOf_confidence_level (cfg : RatioCfg α) :
+    (optsOf cfg).confidence_level = cfg.confidence_level := rfl
+@[simp] theorem optsOf_equal_var (cfg : RatioCfg α) : (optsOf cfg).equal_var = cfg.equal_var := rfl
+@[simp] theorem optsOf_use_t (cfg : RatioCfg α) : (optsOf cfg).use_t = cfg.use_t := rfl
+
 theorem scale_and_distr_null_eq (P : Prims α) (cfg : RatioCfg α) (cv cn tv tn : α) :
     RatioOfMeans.scale_and_distr_null P cfg cv cn tv tn
       = (P.sqrt (seSq (optsOf cfg) cv cn tv tn), refDist P (optsOf cfg) cv cn tv tn, ()) := by
